@@ -111,7 +111,32 @@ def make_job(only=None, seed=0):
                 probe_args=dict(package=names.import_package(P), proto_package=P, cells=cells, seed=seed)), cells
 
 
+def control_word_jobs():
+    """Thorough only: a flattened parameter named like a client control parameter (DESIGN 9/D7); one library per word."""
+    jobs = []
+    for w in ('request', 'retry', 'timeout', 'metadata'):
+        msgs = [message('Req', [field(w, 1, 'string'), field('other', 2, 'string')]), message('Resp', [field('ok', 1, 'bool')])]
+        f = file('acme/flat/v1/flatten.proto', P, messages=msgs,
+                 services=[service('Flat', [method('Do', Q('Req'), Q('Resp'), sigs=[f'{w},other'])])])
+        req = request([f], 'transport=grpc,autogen-snippets=false')
+        desc.gate(req)
+        jobs.append(dict(id=f'control-word/{w}', req=req.SerializeToString(), probe='mc.probes.imports', _word=w))
+    return jobs
+
+
 def run(ctx, only=None):
+    if ctx.thorough and not only:
+        for job, res in zip(control_word_jobs(), engine.run_jobs(control_word_jobs())):
+            ctx.state(1)
+            ctx.evaluated(1)
+            w = job['_word']
+            if not res['gen']['ok']:
+                ctx.violation(f'control-word/{w}|generation:{res["gen"]["etype"]}', f'flattened parameter named {w!r}: generator raised '
+                              f'{res["gen"]["etype"]}: {res["gen"]["emsg"][:200]}', dict(cells=None))
+            elif res.get('obs', {}).get('compile_errors') or res.get('obs', {}).get('import_errors'):
+                e = (res['obs']['compile_errors'] or res['obs']['import_errors'])[0]
+                ctx.violation(f'control-word/{w}|{e["etype"]}', f'flattened parameter named {w!r}: emitted library is not importable: '
+                              f'{e.get("file", e.get("module"))}: {e["emsg"][:200]}', dict(cells=None))
     job, cells = make_job(only, ctx.seed)
     ctx.log(f'{len(cells)} signature cells')
     res, = engine.run_jobs([job])
